@@ -32,6 +32,11 @@ Theorem c04_crash_stops : forall s hs h r,
     t_elapsed r' = t_elapsed r /\ t_offset r' = t_offset r /\ is_client r' = false.
 Proof. exact c04_crash_stops_lemma. Qed.
 
+(* (Reading of "no further observable effect" since /repo 2342d63: the host's
+   SOFTWARE — its tasks, its code — causes none: it is never polled, never
+   started, reads no clock.  Its network stack, with the empty tables left by
+   c04_tables_released, still answers what arrives for it, and only with
+   refusals, resets and drops: c04_crashed_stack_answers.) *)
 (* A stopped host stops dead: whatever happens next (steps, runs, registrations,
    crashes, bounces of OTHER hosts), as long as no Bounce names it, it is never
    polled (poll counter fixed), never restarted (start counter fixed), stays
@@ -114,6 +119,33 @@ Proof.
   exact (conj owns_empty (conj owns_udp_bind (conj owns_tcp_bind (conj owns_syn_queued
           (conj owns_connect_start (conj owns_new_stream (conj owns_rst_received (conj owns_join owns_drop)))))))).
 Qed.
+
+(* The stack of a crashed host.  Sim::step keeps delivering the inbound network
+   to a host whose `crashed` flag is set (no code of the host runs).  After the
+   release of all its sockets, in any order, any sequence of arriving messages
+   leaves its tables as they are (empty: nothing is queued, buffered or
+   delivered, so nothing can be handed to the next incarnation) and is
+   answered message by message: SYN -> refused (ack sender dropped), data / FIN
+   -> RST, RST -> nothing, datagram -> dropped. *)
+Theorem c04_crashed_stack_answers : forall t objs order msgs,
+  owns t objs -> Permutation objs order ->
+  let t0 := fst (drop_all t order) in
+  fst (fold_left (fun acc m => (fst (receive (fst acc) m), snd acc ++ [snd (receive (fst acc) m)]))
+                 msgs (t0, [])) = t0 /\
+  snd (fold_left (fun acc m => (fst (receive (fst acc) m), snd acc ++ [snd (receive (fst acc) m)]))
+                 msgs (t0, [])) = map crashed_reply msgs.
+Proof. exact c04_crashed_stack_answers_lemma. Qed.
+
+(* The flag that selects those hosts: set by Sim::crash exactly when software
+   was running (a host whose software had finished is not drained), cleared by
+   bounce, never touched by a step or a registration. *)
+Theorem c04_crashed_flag : forall d r,
+  (running r = true -> crashed (crash1 r) = true) /\
+  (running r = false -> crashed (crash1 r) = crashed r) /\
+  crashed (bounce1 r) = false /\
+  crashed (adv d r) = crashed r /\
+  crashed (new_rt (is_client r) (sw r) d) = false.
+Proof. exact c04_crashed_flag_lemma. Qed.
 
 (* ---- non-vacuity ------------------------------------------------------------------- *)
 
@@ -198,5 +230,7 @@ Print Assumptions c04_starts_only_bounce.
 Print Assumptions c04_isolation.
 Print Assumptions c04_tables_released.
 Print Assumptions c04_owns_api.
+Print Assumptions c04_crashed_stack_answers.
+Print Assumptions c04_crashed_flag.
 Print Assumptions c04_nonvacuous_core.
 Print Assumptions c04_nonvacuous_tables.
